@@ -167,7 +167,7 @@ def eval_case(ctx, case):
     # ---- reference run: same configuration without the fault, on a pristine tree
     rfiles, rcfg, outputs = build(case, None, server, with_injection=False, all_force=True)
     ref_root = core.scratch_module(ctx, dict(rfiles, **BYSTANDERS))
-    r0 = core.run_mockery(ctx, ref_root, [], timeout=300)
+    r0 = core.run_mockery(ctx, ref_root, [], timeout=300, nofile=case.get("nofile"))
     if r0.timed_out:
         return Verdict.inconclusive("watchdog (reference run)")
     if r0.exit != 0:
@@ -230,7 +230,7 @@ def eval_case(ctx, case):
     if case.get("env_force") is not None and case.get("root_force") is not None:
         # the file states force-file-write at the top level: a MOCKERY_FORCE_FILE_WRITE variable (lower precedence) must not change anything
         env = {"MOCKERY_FORCE_FILE_WRITE": "true" if case["env_force"] else "false"}
-    r = core.run_mockery(ctx, root, [], env_extra=env, strace=strace, timeout=600)
+    r = core.run_mockery(ctx, root, [], env_extra=env, strace=strace, timeout=600, nofile=case.get("nofile"))
     if r.timed_out:
         return Verdict.inconclusive("watchdog")
     after = core.snapshot(root)
@@ -356,6 +356,11 @@ def body(ctx, replay=None):
             for j, (st0, rf) in enumerate((("absent", None), ("prev-long", True))):
                 cases.append({"kind": "write", "i": 34000 + j, "n": 2, "inj": None, "formatter": "gofmt", "line_directive": True,
                               "files": [{"state": st0, "force": None, "template": "testify"}, {"state": "absent", "force": None, "template": "matryer"}], "root_force": rf, "pkg_force": None})
+            # many output files under a descriptor table smaller than the number of files (1024 for 1101 files): nothing the run opened for one file stays open while the next ones are written
+            for j, (st0, fm) in enumerate(((("absent", "noop"),) if ctx.tier == "quick" else (("absent", "noop"), ("prev-long", "gofmt")))):
+                # (1024 is the customary soft limit, under which the go command is known to work on any machine)
+                cases.append({"kind": "write", "i": 37000 + j, "n": 1100, "inj": None, "formatter": fm, "nofile": 1024,
+                              "files": [{"state": st0, "force": None, "template": "testify"}] * 1100, "root_force": True, "pkg_force": None})
             # one custom template shared by the 4 files of the package, only one of them requires its schema - and violates it
             for j, (st0, pos, fm) in enumerate((a, b, c) for a in ("prev-long", "user", "absent") for b in (1, 3) for c in ("noop", "gofmt")):
                 cases.append({"kind": "write", "i": 36000 + j, "n": 4, "inj": {"stage": "schema-invalid-shared-template", "file": pos}, "formatter": fm,
